@@ -1,0 +1,82 @@
+//go:build verif
+
+package rosmar
+
+import (
+	"sync/atomic"
+)
+
+// Verification hooks. Only compiled with `-tags verif`. They add named scheduling points
+// (verifPoint) and a few accessors/injectors used by an external verification harness.
+// Nothing here changes behaviour unless a hook function has been installed.
+
+type verifHookFn func(point string, args ...any)
+
+var verifHook atomic.Pointer[verifHookFn]
+
+// VerifSetHook installs (or, with nil, removes) the function called at every verifPoint.
+func VerifSetHook(f func(point string, args ...any)) {
+	if f == nil {
+		verifHook.Store(nil)
+		return
+	}
+	fn := verifHookFn(f)
+	verifHook.Store(&fn)
+}
+
+func verifPoint(point string, args ...any) {
+	if h := verifHook.Load(); h != nil {
+		(*h)(point, args...)
+	}
+}
+
+type verifClock struct{ f func() uint64 }
+
+func (c *verifClock) getTime() uint64 { return c.f() }
+
+// VerifSetClock replaces the physical clock read by the process-wide hybrid logical clock.
+// Passing nil restores the system clock.
+func VerifSetClock(f func() uint64) {
+	hlc.mutex.Lock()
+	defer hlc.mutex.Unlock()
+	if f == nil {
+		hlc.clock = &systemClock{}
+	} else {
+		hlc.clock = &verifClock{f: f}
+	}
+}
+
+// VerifResetHLC overwrites the highest timestamp handed out so far.
+func VerifResetHLC(v uint64) {
+	hlc.mutex.Lock()
+	defer hlc.mutex.Unlock()
+	hlc.highestTime = v
+}
+
+// VerifHLCHighest returns the highest timestamp handed out so far.
+func VerifHLCHighest() uint64 {
+	hlc.mutex.Lock()
+	defer hlc.mutex.Unlock()
+	return hlc.highestTime
+}
+
+// VerifBucketCount returns the registry's reference count for a bucket name.
+func VerifBucketCount(name string) (count uint, registered bool) {
+	cluster.lock.Lock()
+	defer cluster.lock.Unlock()
+	_, registered = cluster.buckets[name]
+	return cluster.bucketCount[name], registered
+}
+
+// VerifActiveFeeds returns the number of running feed goroutines.
+func VerifActiveFeeds() int32 { return atomic.LoadInt32(&activeFeedCount) }
+
+// VerifNextExp returns the expiry manager's next scheduled expiration (0 if none).
+func (bucket *Bucket) VerifNextExp() uint32 {
+	bucket.expManager.mutex.Lock()
+	defer bucket.expManager.mutex.Unlock()
+	return bucket.expManager._getNext()
+}
+
+// VerifRunExpiry runs the expiry timer's callback synchronously on the calling goroutine.
+func (bucket *Bucket) VerifRunExpiry() { bucket.expManager.runExpiry() }
